@@ -418,16 +418,21 @@ Definition from_tree (t : etree) : outcome ms_err ms :=
        end.
 
 (* ------------------------------------------------------------------ what the parser enforces *)
+(* [chk] is required exactly where from_tree calls from_ast while parsing the printed form
+   (not at terminals, not at pk(K) / pkh(K), which are built by infallible constructors) *)
 Fixpoint ms_text_ok (m : ms) : bool :=
-  chk m &&
   match m with
   | MAfter t | MOlder t => lock_ok t
-  | MAlt x | MSwap x | MCheck x | MDupIf x | MVerify x | MNonZero x | MZeroNotEqual x => ms_text_ok x
-  | MAndV x y | MAndB x y | MOrB x y | MOrD x y | MOrC x y | MOrI x y => ms_text_ok x && ms_text_ok y
-  | MAndOr a b c => ms_text_ok a && ms_text_ok b && ms_text_ok c
-  | MThresh k xs => validate_k_n 0 k (length xs) && (k <=? U32_MAX) && forallb ms_text_ok xs
-  | MMulti k ks | MSortedMulti k ks => validate_k_n MAX_PUBKEYS_PER_MULTISIG k (length ks)
-  | MMultiA k ks | MSortedMultiA k ks => validate_k_n MAX_PUBKEYS_IN_CHECKSIGADD k (length ks)
+  | MCheck x => match x with
+                | MPkK _ | MPkH _ => true
+                | _ => chk m && ms_text_ok x
+                end
+  | MAlt x | MSwap x | MDupIf x | MVerify x | MNonZero x | MZeroNotEqual x => chk m && ms_text_ok x
+  | MAndV x y | MAndB x y | MOrB x y | MOrD x y | MOrC x y | MOrI x y => chk m && (ms_text_ok x && ms_text_ok y)
+  | MAndOr a b c => chk m && (ms_text_ok a && ms_text_ok b && ms_text_ok c)
+  | MThresh k xs => chk m && (validate_k_n 0 k (length xs) && (k <=? U32_MAX) && forallb ms_text_ok xs)
+  | MMulti k ks | MSortedMulti k ks => chk m && validate_k_n MAX_PUBKEYS_PER_MULTISIG k (length ks)
+  | MMultiA k ks | MSortedMultiA k ks => chk m && validate_k_n MAX_PUBKEYS_IN_CHECKSIGADD k (length ks)
   | _ => true
   end.
 
